@@ -300,7 +300,7 @@ func endKind(f *rtFrame, st int64) (string, string) {
 
 var debugTrace = os.Getenv("EVMDRV_DEBUG") != ""
 
-var pops = map[string]int{"call": 7, "ccall": 7, "dcall": 6, "scall": 6, "xfail": 7, "create": 3, "create2": 4, "ETX": 10, "CONVERT": 4, "UNWRAP": 7, "CLAIM": 7}
+var pops = map[string]int{"pcall": 7, "call": 7, "ccall": 7, "dcall": 6, "scall": 6, "xfail": 7, "create": 3, "create2": 4, "ETX": 10, "CONVERT": 4, "UNWRAP": 7, "CLAIM": 7}
 
 func (t *tracer) after(f *rtFrame, scope *vm.ScopeContext) {
 	p := f.pending
@@ -328,6 +328,8 @@ func (t *tracer) after(f *rtFrame, scope *vm.ScopeContext) {
 	}
 	o := p.op
 	switch o.A {
+	case "pcall":
+		t.emit(&Step{A: "pcall", X: f.self, Y: "P", V: o.V, C: map[string]interface{}{"k": "pcall", "oc": o.Gl, "enter": false}, Obs: t.obs(st, pu)})
 	case "call", "dcall", "ccall", "scall", "create", "create2", "xfail":
 		y := o.Target
 		if createOps[o.A] {
